@@ -1528,7 +1528,6 @@ _hostlist_create_bracketed(const char *hostlist, char *sep, char *r_op)
     struct _range ranges[MAX_RANGES];
     int nr, err;
     char *p, *tok, *str, *orig;
-    char cur_tok[1024];
 
     if (hostlist == NULL)
         return new;
@@ -1539,8 +1538,6 @@ _hostlist_create_bracketed(const char *hostlist, char *sep, char *r_op)
     }
 
     while ((tok = _next_tok(sep, &str)) != NULL) {
-        strncpy(cur_tok, tok, sizeof (cur_tok) - 1);
-
         if ((p = strchr(tok, '[')) != NULL) {
             char *q, *prefix = tok;
             *p++ = '\0';
@@ -1565,7 +1562,7 @@ _hostlist_create_bracketed(const char *hostlist, char *sep, char *r_op)
         } else if (strchr(tok, ']')) /* Error: brackets must be balanced */
             goto error_unmatched;
         else                         /* Ok: No brackets found, single host */
-            hostlist_push_host(new, cur_tok);
+            hostlist_push_host(new, tok);
     }
 
     free(orig);
